@@ -67,6 +67,6 @@ let () = register "xpath" (fun words ->
           | [] -> ()
           | w :: _ -> raise (Bad ("section " ^ w))) secs;
       let b x = if x then 1 else 0 in
-      let inv = Printf.sprintf "I %d%d%d%d" (b (doc_wf_b !doc)) (b (doc_inv_b !doc)) (b (spec_shape_b !doc)) (b (names_ok_b !doc)) in
+      let inv = Printf.sprintf "I %d%d%d%d%d" (b (doc_wf_b !doc)) (b (doc_inv_b !doc)) (b (spec_shape_b !doc)) (b (names_ok_b !doc)) (b (parents_ok_b !doc)) in
       String.concat " # " (List.rev (inv :: !out))
     with Bad s -> "badast " ^ s | Failure s -> "badinput " ^ s)
